@@ -787,6 +787,14 @@ def parseParts (po : PercentOracle) (io : IntOracle) (defaultPercent : Nat × Na
     | some none => .error .valueError
     | some (some i) => pure (.number i.toNat)
   | ["exact"] => pure .exact
+  | "percent" :: a :: _ :: _ => match po a with        -- the argument converter runs before the constructor's arity check
+    | none => .error (.oracleMiss ("percent " ++ a))
+    | some none => .error .valueError
+    | some (some _) => .error .typeError
+  | "number" :: a :: _ :: _ => match io a with
+    | none => .error (.oracleMiss ("int " ++ a))
+    | some none => .error .valueError
+    | some (some _) => .error .typeError
   | name :: _ => if name == "percent" || name == "number" || name == "exact" then .error .typeError
                  else .error .valueError
   | [] => .error .valueError
@@ -803,11 +811,19 @@ theorem parseParts_unknown (po : PercentOracle) (io : IntOracle) (dp : Nat × Na
 
 theorem parseParts_too_many (po : PercentOracle) (io : IntOracle) (dp : Nat × Nat) (dn : Nat)
     (name a b : String) (rest : List String)
-    (h : name = "percent" ∨ name = "number" ∨ name = "exact") :
+    (h : (name = "percent" ∧ ∃ v, po a = some (some v)) ∨ (name = "number" ∧ ∃ i, io a = some (some i)) ∨ name = "exact") :
     parseParts po io dp dn (name :: a :: b :: rest) = .error .typeError := by
-  unfold parseParts
-  split <;> simp_all
-  rcases h with h | h | h <;> simp [h]
+  rcases h with ⟨h, v, hv⟩ | ⟨h, i, hi⟩ | h
+  · subst h; simp [parseParts, hv]
+  · subst h; simp [parseParts, hi]
+  · subst h; simp [parseParts]
+
+/-- the argument converter runs first: an unparsable first argument is a `ValueError` whatever follows it -/
+theorem parseParts_bad_first (po : PercentOracle) (io : IntOracle) (dp : Nat × Nat) (dn : Nat)
+    (a b : String) (rest : List String) :
+    (po a = some none → parseParts po io dp dn ("percent" :: a :: b :: rest) = .error .valueError) ∧
+    (io a = some none → parseParts po io dp dn ("number" :: a :: b :: rest) = .error .valueError) := by
+  constructor <;> intro h <;> simp [parseParts, h]
 
 theorem parseParts_exact_arg (po : PercentOracle) (io : IntOracle) (dp : Nat × Nat) (dn : Nat) (a : String) :
     parseParts po io dp dn ["exact", a] = .error .typeError := by
